@@ -70,7 +70,9 @@ InDomain(e, hp) ==
     [] e.act = "reorder" -> Dom_reorder(f, a)
     [] e.act = "mask" -> Dom_mask(f, a)
     [] e.act = "arith" -> Dom_arith(Files(hp, <<e.src>> \o e.others), a)
-    [] e.act = "eval" -> Dom_eval(f, a)
+    \* (on a disk-backed file the names of an expression are netCDF4 variables,
+    \* which have no arithmetic: expressions there must slice, "A[:] + 1")
+    [] e.act = "eval" -> f.cls # "netcdf" /\ Dom_eval(f, a)
     [] OTHER -> FALSE
 
 Decidable(e, hp) ==
